@@ -181,7 +181,7 @@ func (gr *genRun) mpd(n uint32) string {
 	}
 	// range = startNumber .. latest
 	first := "?"
-	if m := regexp.MustCompile(`^sn=(\d+):`).FindStringSubmatch(txt); m != nil {
+	if m := regexp.MustCompile(`^sn=(\d+)[@:]`).FindStringSubmatch(txt); m != nil {
 		first = m[1]
 	}
 	return fmt.Sprintf("mpd=%s..%d %s", first, gr.g.Latest(), txt)
@@ -940,25 +940,26 @@ func c17GenMonitor(c *Ctx, line, out string) {
 		latest = last
 		perAS := strings.Split(m[3], "|")
 		for ai, txt := range perAS {
-			if ai >= len(ass) {
-				break
+			hm := regexp.MustCompile(`^sn=(\d+)@([^:]*):`).FindStringSubmatch(txt)
+			if hm == nil {
+				c.Violate("listed-range", fmt.Sprintf("op %d: AdaptationSet %d of the written MPD has no start number / representations", i, ai), []string{line}, o)
+				return
 			}
+			reps := strings.Split(hm[2], "+")
 			tds := pairRe.FindAllStringSubmatch(txt, -1)
-			if len(tds) != last-first+1 || !strings.HasPrefix(txt, fmt.Sprintf("sn=%d:", first)) {
-				c.Violate("listed-range", fmt.Sprintf("op %d: AdaptationSet %d lists %d entries from its startNumber, range is %d..%d", i, ai, len(tds), first, last), []string{line}, o)
+			if len(tds) != last-first+1 || hm[1] != strconv.Itoa(first) {
+				c.Violate("listed-range", fmt.Sprintf("op %d: AdaptationSet %d lists %d entries from its startNumber %s, range is %d..%d", i, ai, len(tds), hm[1], first, last), []string{line}, o)
 				return
 			}
 			for k, td := range tds {
 				n := first + k
 				t, _ := strconv.Atoi(td[1])
 				d, _ := strconv.Atoi(td[2])
-				for ri, rep := range ass[ai] {
-					if uploaded[rep] == nil {
-						continue // this track has not appeared yet (no upload so far): not part of the channel
-					}
+				// every Representation the MPD writes for this AdaptationSet has the listed number
+				for ri, rep := range reps {
 					s, ok := uploaded[rep][n]
 					if !ok {
-						c.Violate("listed-incomplete", fmt.Sprintf("op %d: MPD lists number %d but track %s has no uploaded segment %d", i, n, rep, n), []string{line}, o)
+						c.Violate("listed-incomplete", fmt.Sprintf("op %d: MPD lists number %d for representation %s, which has no uploaded segment %d", i, n, rep, n), []string{line}, o)
 						return
 					}
 					if ri == 0 && (s.dts != t || s.dur != d) {
@@ -968,6 +969,7 @@ func c17GenMonitor(c *Ctx, line, out string) {
 				}
 			}
 		}
+		_ = ass
 	}
 	_ = sort.Ints
 }
